@@ -754,7 +754,11 @@ to `/repo` itself, checked, and undone (`tools/seed_confirm.sh`, recorded in
   the view that is not simply copied down into the left half now counts as a read that
   must come first; and `runsInnerIterator.Next` pulling without the `Peek` (C07-r10m2)
   where `inner` is kept as `*peekable[T]` (C07-r39) - a pull through a field is the
-  same pull as a static method call. Rounds 2-9 have not been composed yet.
+  same pull as a static method call. Of round 9 the first third (20 seeds, 616
+  compositions): one not reported, and rightly: `Stop` returning early without the lock
+  (C17-r9m1) on top of C17-r3, where `StopAndWait` locks, cancels and waits itself and no
+  longer goes through `Stop` - the property is about `StopAndWait`. The rest of rounds
+  2-9 has not been composed yet.
   One of the new rules is stricter than the property: `C19.std-namesake-forwarders`
   would also report a *correct* shortcut in front of the forwarded call (`if len(s) == 0
   { return -1 }` in `Index`); none of the kept refactorings of C19 has one.
